@@ -251,7 +251,7 @@ def main(argv=None):
             merged.traces += out['traces']
             merged.notes.extend(out['notes'])
             for s in out['samples']:
-                merged.sample(s, limit=6)
+                merged.sample(s, limit=400)
             for v in out['violations']:
                 if v['key'] in per_key:
                     per_key[v['key']]['count'] += v['count']
@@ -321,6 +321,9 @@ def main(argv=None):
         if status == 0 or printed == 0:
             status = 3
 
+    # show the richest cases first, then a spread of the others
+    ss = sorted(merged.samples, key=lambda x: -len(json.dumps(x, default=str)))
+    merged.samples = ss[:3] + ss[3::max(1, len(ss) // 3)][:3]
     wall = time.time() - t0
     exhaustive = (not capped) and done == n
     cov = dict(
